@@ -283,6 +283,8 @@ func init() {
 }
 
 func runC02(c *rt.Ctx) {
+	configuredEpisode() // the process has a past: failing configured Formatters and Parsers, since restored
+	c.Extra("history_before_the_streams", "an episode of failing configured Formatter/Parser variables in all five packages")
 	c.SetRule("every n in [0,130000] x every one of the 128 subsets of the seven format flags is enumerated once (exhaustive): formatter output vs canonical reference, then parsed back as string and []byte and validated; " +
 		"MarshalText/UnmarshalText, String and the six fmt verbs run under each of the 128 DefaultFormat values on all n < 4000 plus a stride and boundary set above. " +
 		"distinct_nontrivial counts distinct (n, flag set) pairs with a 4 or 9 digit or a non-empty flag set")
